@@ -1,5 +1,221 @@
+//! C10 — a terminal event stops the run at the event (twin-run differential monitor).
+
+use super::common::*;
 use crate::ctx::{Ctx, Meta};
+use crate::probe::*;
 use crate::report::Report;
+use crate::rng::Rng;
+use crate::util::{bits_eq, par_for};
+use ivp::prelude::*;
+use serde_json::json;
+
 pub fn run(ctx: &Ctx) -> (Report, Meta) {
-    (Report::new(&ctx.prop), Meta::new("not built yet"))
+    let meta = Meta::new(
+        "bounded problems x 6 methods x both directions x tolerances x {plain, t_eval, dense_output}; 1..4 event functions whose roots are placed from a pilot run's grid (mid-step, near boundaries, several in one step with the terminal one first or last in time), terminal occurrence counts 1..3; every case is run twice, with and without the terminal flag; non-trivial = pair in which the terminal event reached its count (distinct by scenario hash)",
+    )
+    .assume("the twin run shares everything but terminal_count; its events define which occurrence stops the run")
+    .floor("pairs_checked", 500)
+    .floor("pairs_with_terminal_stop", 300)
+    .floor("stops_with_other_events_in_same_step", 20)
+    .floor("stops_with_t_eval", 60);
+    let n = ctx.size(3_000, 100_000);
+    let g = GenOpts { allow_max_step: true, bidirectional_problems: true, max_span: 30.0, ..Default::default() };
+    let rep = par_for(n, "C10", |i, rep| {
+        let case_id = format!("pair/{}", i);
+        if !ctx.want(&case_id) {
+            return;
+        }
+        let mut rng = Rng::derive(ctx.seed, 10, i as u64);
+        let (prob, mut scn) = gen_case(&mut rng, &g);
+        scn.first_step = if scn.method == Method::RK4 { Some(scn.dir() * (scn.xend - scn.x0).abs() / rng.range(30.0, 200.0)) } else { None };
+        scn.max_steps = None;
+        scn.t_eval = None;
+        let m = mname(scn.method);
+        let nst = scn.y0.len();
+        let dirn = scn.dir();
+        let Some(grid) = pilot_grid(&prob, &scn) else {
+            rep.inconclusive("pilot_run_unusable");
+            return;
+        };
+        let ng = grid.len();
+        // events: several in one step
+        let nev = 1 + rng.below(4);
+        let kshared = rng.below(ng - 1);
+        scn.events.clear();
+        for e in 0..nev {
+            let k = if e == 0 || rng.chance(0.6) { kshared } else { rng.below(ng - 1) };
+            let (a, b) = (grid[k], grid[k + 1]);
+            let c = match rng.below(5) {
+                0 | 1 | 2 => a + (b - a) * rng.range(0.03, 0.97),
+                3 => b - (b - a) * 1e-9,
+                _ => a + (b - a) * 1e-9,
+            };
+            let inside = (c - scn.x0) * dirn > 0.0 && (c - scn.xend) * dirn < 0.0;
+            if rng.chance(0.55) && inside {
+                scn.events.push(EvSpec { kind: EvKind::Time { c }, dir: 0, terminal: None });
+            } else {
+                scn.events.push(random_event(&mut rng, nst, scn.x0, scn.xend));
+            }
+        }
+        let term_idx = rng.below(nev);
+        let count = 1 + rng.below(3);
+        if rng.chance(0.4) {
+            let k = 2 + rng.below(15);
+            let mut te: Vec<f64> = (0..k).map(|_| scn.x0 + (scn.xend - scn.x0) * rng.f()).collect();
+            te.push(scn.x0);
+            te.push(scn.xend);
+            te.sort_by(|a, b| a.partial_cmp(b).unwrap());
+            if dirn < 0.0 {
+                te.reverse();
+            }
+            te.dedup();
+            scn.t_eval = Some(te);
+        }
+        scn.dense = rng.bool();
+        let twin = scn.clone();
+        let mut term = scn.clone();
+        term.events[term_idx].terminal = Some(count);
+        let ra = run_solve(&prob, &term, false, false);
+        let rt = run_solve(&prob, &twin, false, false);
+        rep.evals(2);
+        let mut case = term.describe(&prob);
+        case["terminal_function"] = json!(term_idx);
+        let cls = if scn.t_eval.is_some() { "t_eval" } else if scn.dense { "dense" } else { "plain" };
+        let sig = |clause: &str| format!("C10/{}/{}/{}", clause, m, cls);
+        let (a, t) = match (&ra.out, &rt.out) {
+            (Outcome::Ok(a), Outcome::Ok(t)) => (a, t),
+            (Outcome::Panic(msg), _) | (_, Outcome::Panic(msg)) => {
+                rep.violate(&sig("no_panic"), format!("panic: {}", msg), &case_id, case);
+                return;
+            }
+            _ => {
+                rep.inconclusive("run_not_ok");
+                return;
+            }
+        };
+        if t.status != Status::Success {
+            rep.inconclusive("twin_not_successful");
+            return;
+        }
+        rep.count("pairs_checked", 1);
+        let reached = t.t_events[term_idx].len() >= count;
+        if !reached {
+            // nothing may change
+            let same = a.status == t.status && bits_eq(&a.t, &t.t) && crate::util::bits_eq2(&a.y, &t.y) && (0..nev).all(|e| bits_eq(&a.t_events[e], &t.t_events[e]));
+            if !same {
+                rep.violate(&sig("unreached_terminal_changes_run"), format!("the terminal event never reached its count {} (twin found {} occurrences) but the run differs from the twin (status {:?})", count, t.t_events[term_idx].len(), a.status), &case_id, case);
+            }
+            return;
+        }
+        rep.count("pairs_with_terminal_stop", 1);
+        rep.nontrivial(scn_hash(&term, &prob));
+        let te = t.t_events[term_idx][count - 1];
+        let ye = &t.y_events[term_idx][count - 1];
+        case["stop"] = json!({"t_e": te, "y_e": ye});
+        // equal event times from different functions make the processing order ambiguous
+        let tie = (0..nev).any(|e| e != term_idx && t.t_events[e].iter().any(|&x| x == te));
+        if tie {
+            rep.inconclusive("another_event_at_exactly_the_same_time");
+            return;
+        }
+        if a.status != Status::UserInterrupt {
+            rep.violate(&sig("status_user_interrupt"), format!("terminal event reached its count at t = {:e} but status is {:?}", te, a.status), &case_id, case.clone());
+        }
+        // last sample is the event point
+        match (a.t.last(), a.y.last()) {
+            (Some(&tl), Some(yl)) if tl.to_bits() == te.to_bits() && bits_eq(yl, ye) => {}
+            (tl, yl) => {
+                rep.violate(&sig("last_sample_is_event_point"), format!("last sample ({:?}, {:?}) is not the event point ({:e}, {:?})", tl, yl, te, ye), &case_id, case.clone());
+            }
+        }
+        // nothing later than the event
+        if let Some(k) = a.t.iter().position(|&x| (x - te) * dirn > 0.0) {
+            rep.violate(&sig("sample_after_event"), format!("sample t[{}] = {:e} lies after the terminal event at {:e}", k, a.t[k], te), &case_id, case.clone());
+        }
+        let mut others_in_step = false;
+        for e in 0..nev {
+            if let Some(&x) = a.t_events[e].iter().find(|&&x| (x - te) * dirn > 0.0) {
+                rep.violate(&sig("event_after_stop"), format!("event of function {} at {:e} lies after the terminal event at {:e}", e, x, te), &case_id, case.clone());
+            }
+            // events up to and including the stop are those of the twin
+            let want: Vec<f64> = t.t_events[e].iter().cloned().filter(|&x| (x - te) * dirn < 0.0 || (e == term_idx && x == te)).collect();
+            let wanty: Vec<&Vec<f64>> = t.t_events[e].iter().zip(&t.y_events[e]).filter(|(x, _)| (**x - te) * dirn < 0.0 || (e == term_idx && **x == te)).map(|(_, y)| y).collect();
+            // the terminal function itself: exactly its first `count` occurrences
+            let want: Vec<f64> = if e == term_idx { t.t_events[e][..count].to_vec() } else { want };
+            let wanty: Vec<&Vec<f64>> = if e == term_idx { t.y_events[e][..count].iter().collect() } else { wanty };
+            if !bits_eq(&a.t_events[e], &want) {
+                let clause = if a.t_events[e].len() < want.len() { "earlier_events_kept" } else { "events_identical_before_stop" };
+                let mut c2 = case.clone();
+                c2["function"] = json!(e);
+                c2["reported"] = json!(a.t_events[e]);
+                c2["twin_before_stop"] = json!(want);
+                rep.violate(&sig(clause), format!("function {}: events {:?} but the twin has {:?} up to the stop", e, a.t_events[e], want), &case_id, c2);
+            } else {
+                for (k, y) in a.y_events[e].iter().enumerate() {
+                    if k < wanty.len() && !bits_eq(y, wanty[k]) {
+                        rep.violate(&sig("events_identical_before_stop"), format!("function {}: event state {} differs from the twin", e, k), &case_id, case.clone());
+                    }
+                }
+            }
+            // another event inside the very step of the stop?
+            if e != term_idx {
+                let kstep = grid_step(&t.t, te, dirn);
+                if let Some((lo, hi)) = kstep {
+                    if t.t_events[e].iter().any(|&x| x >= lo && x <= hi) {
+                        others_in_step = true;
+                    }
+                }
+            }
+        }
+        if others_in_step {
+            rep.count("stops_with_other_events_in_same_step", 1);
+        }
+        // samples before the stop identical to the twin
+        if scn.t_eval.is_none() {
+            let want: Vec<usize> = (0..t.t.len()).filter(|&k| (t.t[k] - te) * dirn < 0.0).collect();
+            let ok = a.t.len() >= want.len() + 1 && want.iter().enumerate().all(|(j, &k)| a.t[j].to_bits() == t.t[k].to_bits() && bits_eq(&a.y[j], &t.y[k]));
+            // between the prefix and the event point at most one sample with t == te (a step boundary coinciding with the event)
+            let extra = a.t.len().saturating_sub(want.len() + 1);
+            if !ok || extra > 1 || (extra == 1 && a.t[want.len()] != te) {
+                let mut c2 = case.clone();
+                c2["reported_t"] = crate::util::jv_trunc(&a.t, 60);
+                c2["twin_t"] = crate::util::jv_trunc(&t.t, 60);
+                rep.violate(&sig("samples_identical_before_stop"), format!("the samples before the stop differ from the twin's ({} reported, {} expected before the event)", a.t.len(), want.len()), &case_id, c2);
+            }
+        } else {
+            rep.count("stops_with_t_eval", 1);
+            let tev = scn.t_eval.as_ref().unwrap();
+            let want: Vec<f64> = tev.iter().cloned().filter(|&x| (x - te) * dirn <= 0.0).collect();
+            let got = &a.t[..a.t.len().saturating_sub(1)];
+            if !bits_eq(got, &want) {
+                let mut c2 = case.clone();
+                c2["reported_t"] = crate::util::jv_trunc(&a.t, 60);
+                c2["expected_t"] = crate::util::jv_trunc(&want, 60);
+                rep.violate(&sig("requested_times_before_stop"), format!("{} requested times are not beyond the stop but {} were reported before the event point", want.len(), got.len()), &case_id, c2);
+            } else {
+                for (k, &x) in got.iter().enumerate() {
+                    if let Some(p) = t.t.iter().position(|&z| z.to_bits() == x.to_bits()) {
+                        if !bits_eq(&a.y[k], &t.y[p]) {
+                            rep.violate(&sig("samples_identical_before_stop"), format!("value at requested time {:e} differs from the twin", x), &case_id, case.clone());
+                            break;
+                        }
+                    }
+                }
+            }
+        }
+        if i % 499 == 0 {
+            rep.sample(json!({"scenario": case, "stop_at": te, "count": count, "status": format!("{:?}", a.status)}));
+        }
+    });
+    (rep, meta)
+}
+
+fn grid_step(t: &[f64], te: f64, _dirn: f64) -> Option<(f64, f64)> {
+    for k in 0..t.len().saturating_sub(1) {
+        let (lo, hi) = (t[k].min(t[k + 1]), t[k].max(t[k + 1]));
+        if te >= lo && te <= hi {
+            return Some((lo, hi));
+        }
+    }
+    None
 }
